@@ -67,7 +67,7 @@ func c17(c *Ctx) {
 			cfg.Broadcast = fmt.Sprintf("192.168.%d.255:%d", r.Pick(256), 60000+r.Pick(3))
 		}
 		for k := 0; k < nd; k++ {
-			dc := DevCfg{ID: r.Serial(), Name: fmt.Sprintf("ctrl-%d", k), Proto: []string{"udp", "tcp", "", "any", "TCP"}[r.Pick(5)], NewDevice: r.Chance(0.5), Doors: []string{"front", "back", "side", "garage"}[:1+r.Pick(4)]}
+			dc := DevCfg{ID: r.Serial(), Name: fmt.Sprintf("ctrl-%d", k), Proto: []string{"udp", "tcp", "", "any", "TCP"}[r.Pick(5)], NewDevice: r.Chance(0.5), Doors: [][]string{{"front", "back", "side", "garage"}, {"front", "", "side", ""}, {"", "", "", "d"}}[r.Pick(3)][:1+r.Pick(4)]}
 			switch r.Pick(6) {
 			case 0:
 				dc.Addr = ""
@@ -466,6 +466,14 @@ func c17(c *Ctx) {
 			}
 			if fmt.Sprint(dev.Doors) != fmt.Sprint([]string{"a", "b", "c"}[:len(dev.Doors)]) {
 				c.Res.Violate("C17:clone:device-shares-storage", "mutating a Device clone's door names changed the original", nil, caseNo)
+			}
+			// ... nor do the two lists grow into each other (a list that is empty but has room is a list too)
+			if n := len(dev.Doors); n == len(dcl.Doors) {
+				grownClone := append(dcl.Doors, "added-to-the-clone")
+				grownOrig := append(dev.Doors, "added-to-the-original")
+				if grownClone[n] != "added-to-the-clone" || grownOrig[n] != "added-to-the-original" {
+					c.Res.Violate("C17:clone:device-shares-storage", fmt.Sprintf("a door name appended to a Device clone (%d names, capacity %d) and one appended to the original ended up in the same place: %q / %q", n, cap(dev.Doors), grownClone[n], grownOrig[n]), nil, caseNo)
+				}
 			}
 		}
 
